@@ -24,7 +24,8 @@ EXPLANATION = ('Layer 1: every registered binary rule is attempted on every orde
                'identity survives, no adjacent pair is reducible, at most one scalar factor, on the side with fewer elements, whose value is the product of '
                'all scalars that entered. Layer 3: all structure-compatible chains of REAL operators up to the bound are reduced by the real '
                'CompositionOperator.reduce(); the real result must be in normal form and must have the kind sequence the abstract model predicts '
-               '(validation of the abstraction).')
+               '(validation of the abstraction); for every rewritten real chain, wrapping an operand in a nested single-operand composition or '
+               'inserting a composition of two identities (operands that simplify through their own reduce()) must give the same result.')
 FUNCTIONS = ['AlgebraicReductionRule.apply', 'IdentityRule.apply', 'HomothetyRule.apply', 'AbstractBinaryRule.check', 'InverseBinaryRule.check', 'BINARY_RULE_REGISTRY and every registered rule (table layer)',
              'CompositionOperator.reduce (layer 3)']
 BOUNDS = {'quick': 'layer 2: chains of length 2-3 over 40 codes (26 kinds + scalar/identity on 7 structures) and chains X, p, q, Y[, Z] of length 4-5 over a 13-code alphabet where p @ q is a vanishing pattern, scalar values in -3..3; layer 3: all real chains of length 2-3 and all real chains X @ (vanishing pair) @ Y [@ Z]',
@@ -32,7 +33,7 @@ BOUNDS = {'quick': 'layer 2: chains of length 2-3 over 40 codes (26 kinds + scal
 STUBS = ['rules.HomothetyOperator / IdentityOperator / jnp / BINARY_RULE_REGISTRY bound to table-driven stubs inside the CrossHair run (the driver code itself is the real one)']
 ASSUMPTIONS = ['chains longer than the bound are outside the claim', 'identities produced by a rule mid-scan are not required to be removed (the property does not demand it)']
 RULE = 'case = CrossHair run for one first code (all chains with that head), or one batch of real chains; non-trivial = the batch contains reducible chains; distinct keys'
-BUDGET = {'quick': 900, 'thorough': 3000}
+BUDGET = {'quick': 900, 'thorough': 7200}
 CASE_TIMEOUT = {'quick': 600, 'thorough': 2400}
 
 
@@ -120,7 +121,7 @@ def run_case(key, twin=False):
     first, maxlen = key[1], key[2]
     per = 240 if maxlen <= 3 else 1500
     if key[0] == 'ch-small4':
-        per = 900
+        per = 1500
         out, dt = _crosshair(first, 4, per, allowed=_alpha8(M), minlen=4, second=key[3])
     elif key[0] == 'ch-small':
         per = 500
@@ -223,6 +224,25 @@ def _real(M, first, maxlen):
                 if problem:
                     return violation(f'real chain {[names[c] if c < M.NK else ("HOMO" if c < M.NK + M.NS else "ID") for c in codes]} reduces to {kinds}: {problem}',
                                      model={'codes': codes}, signature=f'c07-real:{problem[:40]}:{codes}', kind='real')
+                # operands that only become pattern members (or identities) through their OWN reduce() must be seen by the chain-level
+                # rules: wrapping an operand in a single-operand composition (whose reduce() is the operand itself), or inserting a
+                # composition of two identities (whose reduce() is the identity), must not change the result
+                input_kinds = [names[c] if c < M.NK else ('HOMO' if c < M.NK + M.NS else 'ID') for c in codes]
+                if kinds != input_kinds and L <= 3:
+                    variants = [(f'operand {p_} wrapped in a nested composition', ops[:p_] + [CompositionOperator([ops[p_]])] + ops[p_ + 1:]) for p_ in range(L)]
+                    for p_ in range(1, L):
+                        st_ = ops[p_].out_structure()
+                        variants.append((f'a composition of two identities inserted at {p_}',
+                                         ops[:p_] + [CompositionOperator([IdentityOperator(st_), IdentityOperator(st_)])] + ops[p_:]))
+                    for what, vops in variants:
+                        vred = CompositionOperator(list(vops)).reduce()
+                        vout = vred.operands if isinstance(vred, CompositionOperator) else [vred]
+                        vk = [M.classify(o) for o in vout]
+                        rot = lambda ks: ['RotN' if k in ('Rot', 'RotF', 'RotN') else ('RotNT' if k in ('RotT', 'RotFT', 'RotNT') else k) for k in ks]  # noqa: E731
+                        if rot(vk) != rot(kinds):
+                            return violation(f'real chain {input_kinds} reduces to {kinds}, but with {what} it reduces to {vk}: an operand that simplifies '
+                                             f'through its own reduce() is not seen by the chain-level rules', model={'codes': codes, 'variant': what},
+                                             signature=f'c07-real-wrapped:{what.split(" ")[0]}', kind='real')
                 # abstraction validation: the abstract model must predict the same kind sequence
                 pred = M.drive(codes, [2] * len(codes))
                 pk = []
